@@ -22,7 +22,7 @@ def units(tier):
     return newids.units() + bulkids.units() + bookkeeping.units() + walk.units() + queries.units() + useractions.units(UA_ALL) + useractions.units(UA_ALL, {"lineage_inv": True}) + primitives.units(names=["AddNodeC", "DeleteNodeC"])
 
 
-def bounded(tier, seed):
+def _bounded(tier, seed):
     from pyvc.native_bridge import bounded_walk
     return [bounded_walk(tier, "queries,walk", "queries-and-walk-bookkeeping",
                          "real get_track_neighbors/has_track_id_at_time vs a scan of the graph for every track id (+1 unused) and every "
@@ -32,3 +32,8 @@ def bounded(tier, seed):
 def witness(label, failure, seed):
     from pyvc.native_bridge import tracks_witness
     return tracks_witness("C06", label, failure, seed)
+
+
+def bounded(tier, seed):
+    from ._common import model_checks
+    return _bounded(tier, seed) + model_checks(tier, "networkx", shape=True, seed=seed)
